@@ -140,10 +140,14 @@ class C17(Property):
         'binary_irrev with major == minor: excluded (0/0 in the source for every t)',
         'finiteness of the FLOAT evaluation (overflow of a growing exponential, inf/inf, inf*0): invisible to the theorems, which are about '
         'real numbers - an algebraically identical rewrite with exp(+kf*t*(major-minor)) keeps every theorem provable but returns nan / '
-        'raises OverflowError for kf*(major-minor)*t > 709. Decided by the oracle only (late/fast regime: rate*t up to 1e5, every backend '
+        'raises OverflowError for kf*(major-minor)*t > 709. The exponent SIGNS are now theorems (`*_exp_args_nonpos`); the float behaviour itself is decided by the oracle only (late/fast regime: rate*t up to 1e5, every backend '
         'must return a finite value equal to the 100-digit reference; binary_irrev_cstr up to fv*t ~ 1e4 must sit on the steady '
         'state). binary_irrev is exercised there with major >= minor only (documented domain: `major` is the more abundant reactant)',
-        'Float evaluation vs the real-number closed form (rounding): correspondence with tolerance only',
+        'Float evaluation vs the real-number closed form (rounding): correspondence with tolerance only; the rate equation and the '
+        'initial value are checked on the sympy-backend expression (100 digits) and numpy / math are tied to it with 1e-9*max(|value|, '
+        'concentration scale): a defect of a NUMERIC backend confined to a transient smaller than that (late regime) is invisible',
+        'no growing exponential (float overflow): now a theorem family `*_exp_args_nonpos` on the documented domain; that exp of a '
+        'non-positive double does not overflow is IEEE/libm, outside',
     )
     anchors = (('chempy/kinetics/integrated.py', None), ('chempy/_util.py', 'get_backend'))
 
@@ -180,7 +184,7 @@ class C17(Property):
                     continue
             elif fn in ('pseudo_irrev', 'binary_irrev'):
                 major, minor = lu(0.01, 10), lu(0.01, 10)
-                if fn == 'pseudo_irrev' or rng.random() < 0.7:
+                if rng.random() < 0.7:          # 30 %: the reactant called `minor` is the more abundant one (formula still valid)
                     major, minor = max(major, minor), min(major, minor)
                 if fn == 'binary_irrev' and abs(major - minor) < 0.05 * max(major, minor):
                     major = float('%.6g' % (major * 1.3))
@@ -379,6 +383,22 @@ class C17(Property):
                 vals[be] = self._call(fn, be, t, a)
             except Exception as e:
                 return '%s(t=%r, %r, backend=%s) raised %s: %s' % (fn, t, a, be, exc_name(e), str(e)[:80])
+        if fn == 'binary_irrev_cstr' and above_steady_state(a, 1e-9) and not all(math.isfinite(x) for v in vals.values() for x in v):
+            # KNOWN region (initial concentration above the steady state).  The known defect is exactly: every NUMERIC backend
+            # form yields nan (numpy) / ValueError "math domain error" (math, mapped to nan by _call).  Anything else there
+            # (inf, a finite value under one numeric backend only, another exception) is NOT the known finding.
+            numeric = [be for be in forms if 'sympy' not in be]
+            if not all(math.isnan(x) for be in numeric for x in vals[be]):
+                return ('binary_irrev_cstr(t=%r, %r) above the steady state: numeric backends give %r; the recorded defect is nan / '
+                        'ValueError under every numeric backend' % (t, a, {be: vals[be] for be in numeric}))
+            # the symbolic backend evaluates the analytic continuation (the coth branch): it must be real and must still be the
+            # solution (rate equations + initial values) -- checked instead of stopping at numpy's nan
+            if not all(math.isfinite(x) for x in vals['sympy']):
+                return 'binary_irrev_cstr(t=%r, %r, backend=sympy) above the steady state is not a real number: %r' % (t, a, vals['sympy'])
+            f = self._ode_init(fn, t, a, scale, names, nres, numeric=False, what=' [sympy backend, above the steady state]')
+            if f is not None:
+                return f
+            return '%s(t=%r, %r, backend=numpy) is not a finite real number: %r' % (fn, t, a, vals['numpy'])
         for be in forms:
             if any(math.isnan(x) or math.isinf(x) for x in vals[be]):
                 return '%s(t=%r, %r, backend=%s) is not a finite real number: %r' % (fn, t, a, be, vals[be])
@@ -427,6 +447,9 @@ class C17(Property):
                 d = float(I.dimerization_irrev(t, a['kf'], a['initial_C']))
                 if not close(d, vals['numpy'][0], 1e-12, 1e-12 * scale):
                     return 'dimerization_irrev(t=%r, %r) with t0 omitted gives %r, with t0=0 %r' % (t, a, d, vals['numpy'][0])
+        return self._ode_init(fn, t, a, scale, names, nres)
+
+    def _ode_init(self, fn, t, a, scale, names, nres, numeric=True, what=''):
         # (2) value at the start = stated initial concentration   (3) rate equation: the sympy-backend expression is
         # differentiated symbolically (sympy.diff) and both sides are evaluated with 100 digits at the generated point
         # (tolerance 1e-30 relative to the sum of the magnitudes of the terms + 1e-80 absolute: factors such as
@@ -439,9 +462,9 @@ class C17(Property):
             v0 = F(tstart, *[am[k] for k in names])[:nres]
             for i in range(nres):
                 if not (abs(v0[i] - init[i]) <= mpmath.mpf('1e-60') * max(scale, 1e-30)):
-                    return '%s at the start (t=%s, %r) is %s, stated initial concentration is %s' % (
-                        fn, tstart, a, mpmath.nstr(v0[i], 17), float(init[i]))
-                f0 = self._call(fn, 'numpy', float(tstart), a)[i]
+                    return '%s at the start (t=%s, %r)%s is %s, stated initial concentration is %s' % (
+                        fn, tstart, a, what, mpmath.nstr(v0[i], 17), float(init[i]))
+                f0 = self._call(fn, 'numpy', float(tstart), a)[i] if numeric else float(init[i])
                 if not close(f0, float(init[i]), 1e-12, 1e-12 * scale):
                     return '%s at the start (t=%s, %r, numpy) is %r, stated initial concentration is %r' % (fn, tstart, a, f0, float(init[i]))
             r = F(mpmath.mpf(t), *[am[k] for k in names])
@@ -451,8 +474,8 @@ class C17(Property):
                 tot = sum(rhs[i])
                 mag = sum(abs(x) for x in rhs[i]) + abs(dy[i])
                 if not (abs(dy[i] - tot) <= mpmath.mpf('1e-30') * mag + mpmath.mpf('1e-80')):
-                    return ('%s(t=%r, %r): component %d has d/dt = %s but the rate equation gives %s'
-                            % (fn, t, a, i, mpmath.nstr(dy[i], 15), mpmath.nstr(tot, 15)))
+                    return ('%s(t=%r, %r)%s: component %d has d/dt = %s but the rate equation gives %s'
+                            % (fn, t, a, what, i, mpmath.nstr(dy[i], 15), mpmath.nstr(tot, 15)))
         return None
 
     def _conventions(self, fn, c, t, a, scale):
